@@ -38,7 +38,8 @@ func genC08(rt *rapid.T) c08Case {
 	c := c08Case{Cause: pick(rt, "cause", c08Causes), Load: pick(rt, "load", []string{"idle", "saturated"}),
 		DelayMs: rapid.IntRange(0, 300).Draw(rt, "delay"), Prefix: rapid.IntRange(0, 5).Draw(rt, "prefix")}
 	c.Flags = pick(rt, "flags", []string{"", "", "audit-metrics", "healthz", "metrics"})
-	if !isMisconfig(c.Cause) && c.Cause != "write_error" && rapid.IntRange(0, 3).Draw(rt, "partial") == 0 {
+	partialOK := map[string]bool{"sigterm": true, "sigint": true, "sshd_eof": true, "audit_eof": true, "malformed_audit": true}
+	if partialOK[c.Cause] && rapid.IntRange(0, 3).Draw(rt, "partial") == 0 {
 		c.Connect = pick(rt, "connect", []string{"sshd_only", "audit_only", "none"})
 		switch {
 		case c.Cause == "sshd_eof" && c.Connect != "sshd_only":
